@@ -3,7 +3,8 @@
 usage: c19_impl.py <in.json> <out.json>
 in : {"deg": [hex, ...], "rad": [hex, ...]}                       inputs as float.hex strings
 out: {"<fn>_<unit>": {"scalar": [...], "npscalar": [...], "array": [...], "array2d": [...]}, ...,
-      "roundtrip_<unit>": {"yhy": [...], "hyh": [...]}}
+      "roundtrip_<unit>": {"yhy": [...], "hyh": [...]},
+      "default_unit": {"y2h": [...], "h2y": [...]}}     f(x) without `deg`, first 64 degree inputs (advisory)
      fn in {y2h, h2y}; every result is float.hex of the returned value, or "EXC:<type>" if the call raised,
      or "TYPE:<type>" if the return value is not a real scalar / not an array of the input's shape.
 Only return values are observed.
@@ -75,6 +76,18 @@ def main():
             except Exception as e:  # noqa
                 rt['hyh'].append('EXC:%s' % type(e).__name__)
         out['roundtrip_%s' % unit] = rt
+    # advisory only: the unit used when `deg` is not given (the README speaks in degrees)
+    dflt = {}
+    xs = [float.fromhex(h) for h in inp['deg'][:64]]
+    for name, f in (('y2h', yaw_to_heading), ('h2y', heading_to_yaw)):
+        r = []
+        for x in xs:
+            try:
+                r.append(hx(f(x)))
+            except Exception as e:  # noqa
+                r.append('EXC:%s' % type(e).__name__)
+        dflt[name] = r
+    out['default_unit'] = dflt
     json.dump(out, open(sys.argv[2], 'w'))
 
 
